@@ -92,6 +92,11 @@ def groupItems (t : Tree) (g : Path) : List (Key × Path) := (children t g).map 
 def groupLen (t : Tree) (g : Path) : Nat := (children t g).length
 /-- the nodes `group.visititems(f)` calls `f` with -/
 def visitNodes (t : Tree) (g : Path) : List Path := (descendants t g).map (·.1)
+/-- `MetadorGroup.values()`: the child nodes with a name that is not reserved -/
+def userChildren (t : Tree) (p : Path) : List Path :=
+  (children t p).filterMap fun kn => if kn.1.internal then none else some (p ++ [kn.1])
+/-- the nodes `MetadorGroup.visititems(f)` calls `f` with (reserved paths are skipped) -/
+def userVisit (t : Tree) (p : Path) : List Path := (userNodesFrom t p).map (·.1)
 /-- `node[()]` -/
 def dsRead (t : Tree) (p : Path) : M Val :=
   match get? t p with
